@@ -126,6 +126,10 @@ func genC11(seed uint64, tier string) *world.Scenario {
 		case 0:
 			lo := r.Range(10, 60)
 			e.backends = []string{fmt.Sprintf("    linear:\n      sensor: %s\n      min: %d\n      max: %d", sensorRef(), lo, lo+r.Range(1, 40))}
+			if defect(0.1) {
+				// both forms at once, the step list empty
+				e.backends[0] += "\n      steps: " + kernel.Pick(r, "{}", "[]")
+			}
 		case 1:
 			var b strings.Builder
 			fmt.Fprintf(&b, "    linear:\n      sensor: %s\n      steps:", sensorRef())
